@@ -764,6 +764,12 @@ def algebra_facts(asg):
                         hit = True
                         if val == "E":
                             facts.add((y[1].name, k))
+            if not hit:
+                ka, kb = peel_param(a), peel_param(b)
+                if ka is not None and kb is not None and ka[0] != kb[0]:
+                    hit = True
+                    if val == "E":
+                        facts.add(("eq", min(ka, kb), max(ka, kb)))
             if not hit and val == "E":
                 facts.add(("other",))
             continue
